@@ -66,6 +66,7 @@ type TxRecord struct {
 type BlockRecord struct {
 	Height     int64
 	Time       time.Time
+	Opts       *BlockOpts `json:",omitempty"`
 	Txs        [][]byte
 	TxResults  []TxRecord
 	ValUpdates []abci.ValidatorUpdate
@@ -229,7 +230,7 @@ func (c *Chain) BeginBlock(dt time.Duration, opts *BlockOpts) {
 	}
 	c.InBlock = true
 	if c.Record {
-		c.cur = &BlockRecord{Height: c.Height, Time: c.Time}
+		c.cur = &BlockRecord{Height: c.Height, Time: c.Time, Opts: opts}
 	}
 	c.guard("BeginBlock", func() { c.App.BeginBlock(req) })
 }
@@ -334,4 +335,95 @@ func (c *Chain) NextBlock(dt time.Duration) abci.ResponseEndBlock {
 	c.Commit()
 	c.BeginBlock(dt, nil)
 	return res
+}
+
+// Replay executes recorded blocks from genesis on a fresh chain for the same world. After the
+// commit of every height in restarts the application object is discarded and re-opened on the
+// same database (a node restart). The returned chain has its own transcript (Blocks).
+func Replay(w *World, blocks []BlockRecord, restarts map[int64]bool) (*Chain, error) {
+	c, err := NewChain(w)
+	if err != nil {
+		return nil, err
+	}
+	c.Record = true
+	for _, b := range blocks {
+		dt := b.Time.Sub(c.Time)
+		c.BeginBlock(dt, b.Opts)
+		for _, tx := range b.Txs {
+			c.DeliverTx(tx)
+		}
+		c.EndBlock()
+		c.Commit()
+		if c.Halted != nil {
+			return c, c.Halted
+		}
+		if restarts[b.Height] {
+			if err := c.Restart(); err != nil {
+				return c, err
+			}
+		}
+	}
+	return c, nil
+}
+
+// CompareTranscripts returns a description of the first difference between two transcripts
+// (app hash, transaction results, validator updates, consensus parameter updates), or "".
+func CompareTranscripts(a, b []BlockRecord) string {
+	n := len(a)
+	if len(b) < n {
+		n = len(b)
+	}
+	for i := 0; i < n; i++ {
+		x, y := a[i], b[i]
+		if x.Height != y.Height {
+			return fmt.Sprintf("block %d: heights %d vs %d", i, x.Height, y.Height)
+		}
+		if len(x.TxResults) != len(y.TxResults) {
+			return fmt.Sprintf("height %d: %d vs %d transaction results", x.Height, len(x.TxResults), len(y.TxResults))
+		}
+		for j := range x.TxResults {
+			p, q := x.TxResults[j], y.TxResults[j]
+			if p.Code != q.Code || string(p.Data) != string(q.Data) || p.GasWanted != q.GasWanted || p.GasUsed != q.GasUsed {
+				return fmt.Sprintf("height %d tx %d: result (code %d, gas %d/%d, %d data bytes, log %.120q) vs (code %d, gas %d/%d, %d data bytes, log %.120q)", x.Height, j, p.Code, p.GasUsed, p.GasWanted, len(p.Data), p.Log, q.Code, q.GasUsed, q.GasWanted, len(q.Data), q.Log)
+			}
+		}
+		if encUpdates(x.ValUpdates) != encUpdates(y.ValUpdates) {
+			return fmt.Sprintf("height %d: validator updates %x vs %x", x.Height, encUpdates(x.ValUpdates), encUpdates(y.ValUpdates))
+		}
+		if encParams(x.ConsParams) != encParams(y.ConsParams) {
+			return fmt.Sprintf("height %d: consensus parameter updates differ", x.Height)
+		}
+		if string(x.AppHash) != string(y.AppHash) {
+			return fmt.Sprintf("height %d: app hash %x vs %x", x.Height, x.AppHash, y.AppHash)
+		}
+	}
+	if len(a) != len(b) {
+		return fmt.Sprintf("transcripts have %d vs %d blocks", len(a), len(b))
+	}
+	return ""
+}
+
+// StartRecordingCurrentBlock makes the block already in progress part of the transcript.
+func (c *Chain) StartRecordingCurrentBlock() {
+	if c.InBlock && c.cur == nil {
+		c.cur = &BlockRecord{Height: c.Height, Time: c.Time}
+	}
+}
+
+
+func encUpdates(ups []abci.ValidatorUpdate) string {
+	out := ""
+	for _, u := range ups {
+		bz, _ := u.Marshal()
+		out += fmt.Sprintf("%x|", bz)
+	}
+	return out
+}
+
+func encParams(p *tmproto.ConsensusParams) string {
+	if p == nil {
+		return ""
+	}
+	bz, _ := p.Marshal()
+	return fmt.Sprintf("%x", bz)
 }
